@@ -563,7 +563,7 @@ def run(ctx):
     try:
         for case in CORPUS:
             one_case(ctx, model, case)
-        for i in range(ctx.n(450, 6000)):
+        for i in range(ctx.n(450, 4000)):
             one_case(ctx, model, gen_case(ctx.rng("case", i)))
     finally:
         if model is not None:
